@@ -54,10 +54,27 @@ func H_Conc() {
 	w.Regs[0] = kit.Reg{Present: true, Life: l0, Form: kit.IdPlain, Variant: v0}
 	w.Regs[1] = kit.Reg{Present: true, Life: l1, Form: kit.IdPlain, Variant: 0}
 	w.Regs[2] = kit.Reg{Present: true, Life: l2, Form: kit.IdPlain, Variant: 0}
+	// world shapes: 0 as above; 1 adds a scoped initializer taking S0 (scope
+	// creation then runs user code); 2 makes registrations 1 and 2 the members of
+	// a value group that registration 0 consumes (user code between the members);
+	// 3 makes registration 0 a multi-return constructor
+	wv := vrt.Pick("world", 0, vrt.Param("worlds", 4)-1)
+	switch wv {
+	case 1:
+		w.N = 4
+		w.Regs[3] = kit.Reg{Present: true, Life: kit.LScoped, Form: kit.IdVoid, Variant: 1}
+	case 2:
+		vrt.Assume(v0 == 2)
+		w.Regs[0].Variant = 8
+		w.Regs[1].Form = kit.IdAsGroup
+		w.Regs[2].Form = kit.IdAsGroup
+	case 3:
+		w.Regs[0].Form = kit.IdMulti
+	}
 	vrt.Assume(buildable(w))
 	c := godi.NewCollection()
 	errs := w.Register(c)
-	vrt.Assume(!addErrs(errs, 3))
+	vrt.Assume(!addErrs(errs, w.N))
 	p, err := c.Build()
 	vrt.Assume(err == nil)
 	ctx, cancel := context.WithCancel(context.Background())
@@ -124,7 +141,14 @@ func H_Conc() {
 				case opResolve0:
 					r.val, r.err = shared.Get(kit.TypeS[0])
 				case opResolve1:
-					r.val, r.err = shared.Get(kit.TypeS[1])
+					if wv == 2 {
+						r.vals, r.err = shared.GetGroup(kit.TypeI0, "g1")
+						if r.err == nil {
+							vrt.Assert(len(r.vals) == 2, "C09.wrong_wiring", "group of two members resolved to", len(r.vals), "values")
+						}
+					} else {
+						r.val, r.err = shared.Get(kit.TypeS[1])
+					}
 				case opResolveChild:
 					r.val, r.err = child.Get(kit.TypeS[0])
 				case opResolveRoot:
@@ -155,6 +179,15 @@ func H_Conc() {
 	for g := 0; g < 2; g++ {
 		for _, r := range res[g] {
 			vrt.Assert(!r.panicked, "C09.panic", "operation", r.op, "panicked:", r.pv)
+			closing := false
+			for _, o := range prog[1-g] {
+				if o == opCloseShared || o == opCloseProvider || o == opCancelShared {
+					closing = true
+				}
+			}
+			if closing {
+				vrt.Assert(!r.panicked, "C13.overlap_panic", "operation", r.op, "overlapping a Close / cancellation panicked:", r.pv)
+			}
 			if r.panicked {
 				continue
 			}
@@ -167,7 +200,7 @@ func H_Conc() {
 				vrt.Assert((r.err == nil) == (r.scope != nil), "C13.overlap_half_initialised", "CreateScope returned neither scope nor error")
 			default:
 				vrt.Assert(okOrDocumented(r.err), "C09.undocumented_error", "resolution returned", r.err)
-				if r.err == nil {
+				if r.err == nil && r.vals == nil {
 					in := kit.InfoOf(r.val)
 					vrt.Assert(in != nil, "C13.overlap_half_initialised", "resolution returned no usable value")
 				}
@@ -233,6 +266,10 @@ func H_Conc() {
 					specs = append(specs, d)
 				}
 			}
+			if wv == 2 && in.Slot == 0 {
+				// the group consumer: one argument per member, in registration order
+				specs = []kit.DepSpec{{Target: 1}, {Target: 2}}
+			}
 			vrt.Assert(len(in.Args) == len(specs), "C09.wrong_wiring", "instance of slot", in.Slot, "received", len(in.Args), "arguments")
 			if in.HasScope && w.Regs[in.Slot].Life != kit.LSingleton {
 				// C18 under interleaving: the injected Scope is the scope the request was issued on
@@ -281,7 +318,11 @@ func H_Conc() {
 	}
 	for r := 0; r < 3; r++ {
 		if w.Regs[r].Life == kit.LSingleton {
-			vrt.Assert(kit.Calls[kit.KindCtor][r] == 1, "C01.singleton_constructed_again", "singleton constructor ran", kit.Calls[kit.KindCtor][r], "times")
+			n := 0
+			for k := range kit.Calls {
+				n += kit.Calls[k][r]
+			}
+			vrt.Assert(n == 1, "C01.singleton_constructed_again", "singleton constructor ran", n, "times")
 		}
 	}
 	// per scope, a scoped registration is constructed successfully at most once
